@@ -156,8 +156,7 @@ fn c02_mutable_response_yielded_iff_key_matches_target_and_signature_verifies() 
     let k0: u8 = kani::any();
     let mut k = [0x11u8; 32];
     k[0] = k0;
-    let n_nodes: usize = kani::any();
-    kani::assume(n_nodes <= 2);
+    let n_nodes: usize = 1; // (node merging has its own obligation: c07_valueless_responses_*)
     let from = SocketAddrV4::new(kani::any::<u32>().into(), kani::any());
     let signed_version: bool = kani::any();
     let m = msg(TID, false, if signed_version { Some(crate::core::VERSION) } else { None },
@@ -233,16 +232,17 @@ fn c02_signed_peers_yielded_iff_every_announcement_verifies() {
     let target = id1(0x10);
     let mut c = core(true);
     install_lookup(&mut c, 2, target, None);
-    let ok: bool = kani::any();
-    unsafe { astub::ANN_SIG_OK = ok };
-    let n: usize = kani::any();
-    kani::assume(n <= 2);
+    // two announcements, each with its own verdict: all four valid/invalid mixes
+    let ok1: bool = kani::any();
+    let ok2: bool = kani::any();
+    unsafe {
+        astub::ANN_SIG_OK = ok1;
+        astub::ANN_SIG_OK2 = ok2;
+    }
+    let n: usize = 2;
+    let ok = ok1 && ok2;
     let t0: u64 = kani::any();
-    let peers: Vec<([u8; 32], u64, [u8; 64])> = match n {
-        0 => vec![],
-        1 => vec![([1; 32], t0, [2; 64])],
-        _ => vec![([1; 32], t0, [2; 64]), ([3; 32], 7, [4; 64])],
-    };
+    let peers: Vec<([u8; 32], u64, [u8; 64])> = vec![([1; 32], t0, [2; 64]), ([3; 32], 7, [4; 64])];
     let from = SocketAddrV4::new(kani::any::<u32>().into(), kani::any());
     let m = msg(TID, false, Some(crate::core::VERSION), MessageType::Response(ResponseSpecific::GetSignedPeers(GetSignedPeersResponseArguments {
         responder_id: id1(RESPONDER), token: Box::new([1]), nodes: None, peers,
@@ -263,8 +263,9 @@ fn c02_signed_peers_yielded_iff_every_announcement_verifies() {
         assert!(unsafe { RT_ADD_CALLS } == 0, "a responder that sent a forged announcement is not admitted to the routing table");
     }
     assert!(responses_recorded(&c, &target) == if all_ok { 1 } else { 0 });
-    kani::cover!(n == 2 && ok);
-    kani::cover!(n == 2 && !ok);
+    kani::cover!(ok);
+    kani::cover!(ok1 && !ok2, "valid first, forged second: nothing is yielded");
+    kani::cover!(!ok1 && ok2);
     core::mem::forget(r);
     core::mem::forget(c);
 }
